@@ -136,10 +136,8 @@ func IntFromString(str string, base int) (Object, error) {
 	}
 	if convertBase == 0 {
 		convertBase = 10
-	}
-
-	// Detect leading zeros which Python doesn't allow using base 0
-	if base == 0 {
+		// Detect leading zeros which Python doesn't allow using base 0
+		// (only for decimal literals: after a 0x/0o/0b prefix they are fine)
 		if len(s) > 1 && s[0] == '0' && (s[1] >= '0' && s[1] <= '9') {
 			goto error
 		}
